@@ -21,6 +21,8 @@ func checkC15(r *core.Run) {
 	r.Rule("G-distinct: RandomIndex appends rs only if no element of idx equals rs (must-avoid)")
 	r.Rule("G-replica: every success return of GetSps <= Replica > 0 AND Replica <= len(sps)")
 	r.Rule("T-provenance: the slices RandomSP returns are built only from GetNextSuperNodes / GetAllNodesByStatusAndReputationAndRole results; T-ignore: ignore argument completeness at the 4 call sites")
+	r.Rule("T-permute: the in-place reordering of the candidate slice under SelectNodes (heap sift) only ever swaps two positions, so it is a permutation and distinct drawn indices name distinct providers")
+	rulePermute(r, "T-permute", "node/keeper.SelectNodes")
 	r.Assume(aDeps)
 	r.Assume(aCG)
 
